@@ -1544,6 +1544,331 @@ theorem unflatten_coherent (d : Int) (sizes : List Int) (bs : Shape) (names nm' 
   rw [ht]
   exact unflatten_coherent_all.1 _ bs names es nd sz rfl hnd hne hprod hnm hc hn
 
+/-! ### whole-tree statements for the tuple-result ops and for repeat / repeat_interleave -/
+
+mutual
+/-- a slice `start : start+len` of batch dim `d` of a coherent tree is coherent with the batch size whose dim `d` is `len` -/
+theorem narrowNode_coherent (d start len : Nat) (bs : Shape) (names : Names) (es : List (String × TD α))
+    (hd : d < bs.length) (hc : CoherentList bs es) :
+    Coherent (narrowNode d start len (bs.set d len) names bs.length es) := by
+  simp only [narrowNode, Coherent]
+  exact narrowGo_coherent d start len bs es hd hc
+termination_by (sizeOf es, 1)
+
+theorem narrowGo_coherent (d start len : Nat) (bs : Shape) (es : List (String × TD α))
+    (hd : d < bs.length) (hc : CoherentList bs es) :
+    CoherentList (bs.set d len) (narrowNode.go d start len (bs.set d len) bs.length es) := by
+  match es, hc with
+  | [], _ => simp [narrowNode.go, CoherentList]
+  | (k, .leaf t) :: rest, hc =>
+    simp only [CoherentList] at hc
+    simp only [narrowNode.go, CoherentList]
+    refine ⟨?_, by simp [Coherent], narrowGo_coherent d start len bs rest hd hc.2.2⟩
+    simp only [PrefixOK, T.narrow]
+    exact set_take_prefix _ _ d len hc.1 hd
+  | (k, .node bs2 nm2 es2) :: rest, hc =>
+    simp only [CoherentList] at hc
+    obtain ⟨hp, hce, hcr⟩ := hc
+    simp only [PrefixOK] at hp
+    obtain ⟨ext, rfl⟩ := prefix_split bs bs2 hp
+    simp only [Coherent] at hce
+    simp only [narrowNode.go, CoherentList]
+    have hdrop : (bs ++ ext).drop bs.length = ext := by simp
+    have hset : bs.set d len ++ ext = (bs ++ ext).set d len := (set_append_left bs ext d len hd).symm
+    refine ⟨?_, ?_, narrowGo_coherent d start len bs rest hd hcr⟩
+    · simp [narrowNode, PrefixOK, hdrop]
+    · rw [hdrop, hset]
+      exact narrowNode_coherent d start len (bs ++ ext) nm2 es2 (by simp; omega) hce
+termination_by (sizeOf es, 0)
+end
+
+/-- every piece `split` / `chunk` returns for a coherent tree is coherent with ITS batch size (dim `d` = the length of the piece) -/
+theorem splitNode_coherent (pieces : List (Nat × Nat)) (d : Nat) (bs : Shape) (names : Names) (es : List (String × TD α))
+    (hd : d < bs.length) (hc : CoherentList bs es) :
+    ∀ p ∈ splitNode pieces d bs names es, Coherent p := by
+  intro p hp
+  simp only [splitNode, List.mem_map] at hp
+  obtain ⟨⟨s, l⟩, _, rfl⟩ := hp
+  exact narrowNode_coherent d s l bs names es hd hc
+
+/-- public form: whatever `split(k, d)` / `split([..], d)` / `chunk(n, d)` return on a coherent tensordict is a list of coherent tensordicts -/
+theorem split_chunk_coherent (op : MOp) (bs : Shape) (names : Names) (es : List (String × TD α)) (ps : List (TD α))
+    (hop : match op with | .unbind _ => False | _ => True)
+    (h : tdMOp op (.node bs names es) = .ok ps) (hc : CoherentList bs es) : ∀ p ∈ ps, Coherent p := by
+  cases op with
+  | unbind d => exact absurd hop id
+  | split k d =>
+    simp only [tdMOp, bind, Except.bind] at h
+    cases hnd : maybeCorrectNegDim d bs.length with
+    | error e => simp [hnd] at h
+    | ok nd =>
+      cases hps : splitPieces k (bs.getD nd 0) with
+      | error e => rw [List.getD_eq_getElem?_getD] at hps; simp [hnd, hps] at h
+      | ok pieces =>
+        simp only [hnd, hps, pure, Except.pure, Except.ok.injEq] at h
+        subst h
+        exact splitNode_coherent pieces nd bs names es (maybeCorrectNegDim_lt d bs.length nd hnd) hc
+  | splitList sizes d =>
+    simp only [tdMOp, bind, Except.bind] at h
+    cases hnd : maybeCorrectNegDim d bs.length with
+    | error e => simp [hnd] at h
+    | ok nd =>
+      cases hps : splitListPieces sizes (bs.getD nd 0) with
+      | error e => rw [List.getD_eq_getElem?_getD] at hps; simp [hnd, hps] at h
+      | ok pieces =>
+        simp only [hnd, hps, pure, Except.pure, Except.ok.injEq] at h
+        subst h
+        exact splitNode_coherent pieces nd bs names es (maybeCorrectNegDim_lt d bs.length nd hnd) hc
+  | chunk chunks d =>
+    simp only [tdMOp, bind, Except.bind] at h
+    by_cases hch : chunks < 1
+    · simp [hch, throw, throwThe, MonadExceptOf.throw] at h
+    · simp only [hch, if_false] at h
+      cases hpi : pyIndex bs d with
+      | none => simp [hpi, throw, throwThe, MonadExceptOf.throw] at h
+      | some n =>
+        simp only [hpi, pure, Except.pure] at h
+        cases hnd : maybeCorrectNegDim d bs.length with
+        | error e => simp [hnd] at h
+        | ok nd =>
+          simp only [hnd] at h
+          have hlt := maybeCorrectNegDim_lt d bs.length nd hnd
+          split at h
+          · cases hps : splitListPieces (List.replicate chunks.toNat 0) (bs.getD nd 0) with
+            | error e => rw [List.getD_eq_getElem?_getD] at hps; simp [hps] at h
+            | ok pieces =>
+              simp only [hps, Except.ok.injEq] at h
+              subst h
+              exact splitNode_coherent pieces nd bs names es hlt hc
+          · split at h
+            · simp at h
+            · rename_i v _
+              simp only [Except.ok.injEq] at h
+              subst h
+              exact splitNode_coherent v nd bs names es hlt hc
+
+mutual
+/-- whole-tree `repeat`: on a coherent tree, with one non-negative count per batch dim, `repeat` succeeds on EVERY entry — a tensor leaf
+through `leaf.repeat(*reps, 1, …, 1)`, a nested tensordict through the same method with the counts padded by ones — and the result is
+coherent with the batch size `bs[i] * reps[i]` (mutual recursion mirroring `repeatNode / repeatEntries / repeatEntry`) -/
+theorem repeatNode_coh (r : List Nat) (bs : Shape) (names : Names) (es : List (String × TD α))
+    (hr : r.length = bs.length) (hc : CoherentList bs es) :
+    ∃ nm es', repeatNode (natsToInts r) bs names es = .ok (.node (List.zipWith (· * ·) bs r) nm es') ∧
+      CoherentList (List.zipWith (· * ·) bs r) es' := by
+  obtain ⟨es', h1, h2⟩ := repeatEntries_coh r bs es hr hc
+  refine ⟨normNames names, es', ?_, h2⟩
+  rw [repeatNode]
+  have hl : ¬ ((natsToInts r).length ≠ bs.length) := by simp [natsToInts, hr]
+  simp only [hl, if_false, natsToInts_any_neg, Bool.false_eq_true, natsToInts_toNat, h1]
+termination_by (sizeOf es, 1)
+
+theorem repeatEntries_coh (r : List Nat) (bs : Shape) (es : List (String × TD α))
+    (hr : r.length = bs.length) (hc : CoherentList bs es) :
+    ∃ es', repeatEntries r bs.length es = .ok es' ∧ CoherentList (List.zipWith (· * ·) bs r) es' := by
+  match es, hc with
+  | [], _ => exact ⟨[], by simp [repeatEntries], by simp [CoherentList]⟩
+  | (k, e) :: rest, hc =>
+    simp only [CoherentList] at hc
+    obtain ⟨e', he, hp, hce⟩ := repeatEntry_coh r bs e hr hc.1 hc.2.1
+    obtain ⟨rest', hrest, hcr⟩ := repeatEntries_coh r bs rest hr hc.2.2
+    refine ⟨(k, e') :: rest', ?_, ?_⟩
+    · rw [repeatEntries]; simp only [he, hrest]
+    · simp only [CoherentList]; exact ⟨hp, hce, hcr⟩
+termination_by (sizeOf es, 0)
+
+theorem repeatEntry_coh (r : List Nat) (bs : Shape) (e : TD α)
+    (hr : r.length = bs.length) (hp : PrefixOK bs e) (hc : Coherent e) :
+    ∃ e', repeatEntry r bs.length e = .ok e' ∧ PrefixOK (List.zipWith (· * ·) bs r) e' ∧ Coherent e' := by
+  match e, hp, hc with
+  | .leaf t, hp, _ =>
+    simp only [PrefixOK] at hp
+    obtain ⟨ext, hext⟩ := prefix_split bs t.shape hp
+    have hrank : ¬ (t.rank < bs.length) := by unfold T.rank; rw [hext]; simp
+    refine ⟨.leaf (t.repeat (r ++ List.replicate (t.rank - bs.length) 1)), ?_, ?_, by simp [Coherent]⟩
+    · rw [repeatEntry]; simp only [hrank, if_false]
+    · have hlen : t.rank - bs.length = ext.length := by unfold T.rank; rw [hext]; simp
+      simp only [PrefixOK, T.repeat, hlen, hext, zipWith_mul_append_ones bs ext r hr]
+      have : (List.zipWith (· * ·) bs r).length = bs.length := by simp [hr]
+      rw [this]
+      have h2 : (List.zipWith (· * ·) bs r ++ ext).take bs.length = List.zipWith (· * ·) bs r := by
+        rw [← this]; exact List.take_left' rfl
+      exact h2
+  | .node bs2 nm2 es2, hp, hc =>
+    simp only [PrefixOK] at hp
+    obtain ⟨ext, rfl⟩ := prefix_split bs bs2 hp
+    simp only [Coherent] at hc
+    have hl2 : (bs ++ ext).length - bs.length = ext.length := by simp
+    have hr2 : (r ++ List.replicate ext.length 1).length = (bs ++ ext).length := by simp [hr]
+    obtain ⟨nm, es', h1, h2⟩ := repeatNode_coh (r ++ List.replicate ext.length 1) (bs ++ ext) nm2 es2 hr2 hc
+    rw [zipWith_mul_append_ones bs ext r hr] at h1 h2
+    refine ⟨.node (List.zipWith (· * ·) bs r ++ ext) nm es', ?_, ?_, ?_⟩
+    · rw [repeatEntry, hl2]; exact h1
+    · simp only [PrefixOK]; exact List.take_left' rfl
+    · simp only [Coherent]; exact h2
+termination_by (sizeOf e, 0)
+end
+
+mutual
+/-- whole-tree `repeat_interleave(r, dim)`: on a coherent tree, for a batch dim `d`, the op succeeds on every entry at every depth and the
+result is coherent with the batch size whose dim `d` is multiplied by `r` -/
+theorem riNode_coh (r d : Nat) (bs : Shape) (names : Names) (es : List (String × TD α))
+    (hd : d < bs.length) (hc : CoherentList bs es) :
+    ∃ nm es', riNode (r : Int) (d : Int) bs names es = .ok (.node (bs.modify d (· * r)) nm es') ∧
+      CoherentList (bs.modify d (· * r)) es' := by
+  obtain ⟨es', h1, h2⟩ := riEntries_coh r d bs es hd hc
+  refine ⟨normNames names, es', ?_, h2⟩
+  rw [riNode]
+  have h0 : ((d : Int) ≥ 0) := by omega
+  have hin : ¬ ¬ (0 ≤ (d : Int) ∧ (d : Int) < (bs.length : Nat)) := by omega
+  have hr : ¬ ((r : Int) < 0) := by omega
+  have hin2 : (0 ≤ (d : Int) ∧ (d : Int) < (bs.length : Nat)) := by omega
+  simp [h0, hin2, hr, h1]
+termination_by (sizeOf es, 1)
+
+theorem riEntries_coh (r d : Nat) (bs : Shape) (es : List (String × TD α))
+    (hd : d < bs.length) (hc : CoherentList bs es) :
+    ∃ es', riEntries r d es = .ok es' ∧ CoherentList (bs.modify d (· * r)) es' := by
+  match es, hc with
+  | [], _ => exact ⟨[], by simp [riEntries], by simp [CoherentList]⟩
+  | (k, e) :: rest, hc =>
+    simp only [CoherentList] at hc
+    obtain ⟨e', he, hp, hce⟩ := riEntry_coh r d bs e hd hc.1 hc.2.1
+    obtain ⟨rest', hrest, hcr⟩ := riEntries_coh r d bs rest hd hc.2.2
+    refine ⟨(k, e') :: rest', ?_, ?_⟩
+    · rw [riEntries]; simp only [he, hrest]
+    · simp only [CoherentList]; exact ⟨hp, hce, hcr⟩
+termination_by (sizeOf es, 0)
+
+theorem riEntry_coh (r d : Nat) (bs : Shape) (e : TD α)
+    (hd : d < bs.length) (hp : PrefixOK bs e) (hc : Coherent e) :
+    ∃ e', riEntry r d e = .ok e' ∧ PrefixOK (bs.modify d (· * r)) e' ∧ Coherent e' := by
+  match e, hp, hc with
+  | .leaf t, hp, _ =>
+    simp only [PrefixOK] at hp
+    obtain ⟨ext, hext⟩ := prefix_split bs t.shape hp
+    have hrank : d < t.rank := by unfold T.rank; rw [hext]; simp; omega
+    refine ⟨.leaf (t.repeatInterleave r d), ?_, ?_, by simp [Coherent]⟩
+    · rw [riEntry]; simp only [hrank, if_true]
+    · simp only [PrefixOK, T.repeatInterleave, hext, modify_append_left' bs ext d _ hd]
+      exact List.take_left' rfl
+  | .node bs2 nm2 es2, hp, hc =>
+    simp only [PrefixOK] at hp
+    obtain ⟨ext, rfl⟩ := prefix_split bs bs2 hp
+    simp only [Coherent] at hc
+    obtain ⟨nm, es', h1, h2⟩ := riNode_coh r d (bs ++ ext) nm2 es2 (by simp; omega) hc
+    rw [modify_append_left' bs ext d _ hd] at h1 h2
+    refine ⟨.node (bs.modify d (· * r) ++ ext) nm es', ?_, ?_, ?_⟩
+    · rw [riEntry]; exact h1
+    · simp only [PrefixOK]
+      exact List.take_left' rfl
+    · simp only [Coherent]; exact h2
+termination_by (sizeOf e, 0)
+end
+
+mutual
+/-- whole-tree `unbind(d)`: on a coherent tree, for a batch dim `d`, every entry is unbound — a tensor leaf through `torch.unbind`, a nested
+tensordict through `_unbind` — every column has exactly `batch_size[d]` elements (the strict zip never fails), and each of the
+`batch_size[d]` results is a coherent tensordict of batch size `bs` without dim `d` -/
+theorem unbindNode_coh (d : Nat) (bs : Shape) (names : Names) (es : List (String × TD α))
+    (hd : d < bs.length) (hc : CoherentList bs es) :
+    ∃ ps, unbindNode d bs names es = .ok ps ∧ ps.length = bs.getD d 0 ∧
+      ∀ p ∈ ps, (∃ nm es', p = .node (bs.eraseIdx d) nm es') ∧ Coherent p := by
+  obtain ⟨cols, h1, h2⟩ := unbindEntries_coh d bs es hd hc
+  unfold unbindNode
+  simp only [bind, Except.bind, h1, pure, Except.pure]
+  refine ⟨_, rfl, by simp, ?_⟩
+  intro p hp
+  simp only [List.mem_map, List.mem_range] at hp
+  obtain ⟨i, _, rfl⟩ := hp
+  refine ⟨⟨_, _, rfl⟩, ?_⟩
+  simp only [Coherent]
+  exact cols_row_coherent _ _ i cols h2
+termination_by (sizeOf es, 1)
+
+theorem unbindEntries_coh (d : Nat) (bs : Shape) (es : List (String × TD α))
+    (hd : d < bs.length) (hc : CoherentList bs es) :
+    ∃ cols, unbindEntries d (bs.getD d 0) es = .ok cols ∧ ColsOK (bs.eraseIdx d) (bs.getD d 0) cols := by
+  match es, hc with
+  | [], _ => exact ⟨[], by simp [unbindEntries, pure, Except.pure], by intro c hc; simp at hc⟩
+  | (k, e) :: rest, hc =>
+    simp only [CoherentList] at hc
+    obtain ⟨col, he, hlen, hall⟩ := unbindEntry_coh d bs e hd hc.1 hc.2.1
+    obtain ⟨rest', hrest, hok⟩ := unbindEntries_coh d bs rest hd hc.2.2
+    refine ⟨(k, col) :: rest', ?_, ?_⟩
+    · rw [unbindEntries]
+      simp only [bind, Except.bind, he, hlen, ne_eq, not_true_eq_false, if_false, hrest, pure, Except.pure]
+    · intro c hc'
+      simp only [List.mem_cons] at hc'
+      rcases hc' with rfl | hc'
+      · exact ⟨hlen, hall⟩
+      · exact hok c hc'
+termination_by (sizeOf es, 0)
+
+theorem unbindEntry_coh (d : Nat) (bs : Shape) (e : TD α)
+    (hd : d < bs.length) (hp : PrefixOK bs e) (hc : Coherent e) :
+    ∃ col, unbindEntry d e = .ok col ∧ col.length = bs.getD d 0 ∧ ∀ x ∈ col, PrefixOK (bs.eraseIdx d) x ∧ Coherent x := by
+  match e, hp, hc with
+  | .leaf t, hp, _ =>
+    simp only [PrefixOK] at hp
+    obtain ⟨ext, hext⟩ := prefix_split bs t.shape hp
+    have hrank : d < t.rank := by unfold T.rank; rw [hext]; simp; omega
+    have h0 : t.rank ≠ 0 := by omega
+    have hg : t.shape.getD d 0 = bs.getD d 0 := getD_of_take hp hd
+    refine ⟨(t.unbind d).map .leaf, ?_, ?_, ?_⟩
+    · rw [unbindEntry]; simp only [Torch.unbind, wrapDim_ofNat hrank, h0, if_false, Except.map]
+    · simp only [T.unbind, List.length_map, List.length_range]; exact hg
+    · intro x hx
+      simp only [T.unbind, List.map_map, List.mem_map, List.mem_range, Function.comp] at hx
+      obtain ⟨i, _, rfl⟩ := hx
+      refine ⟨?_, by simp [Coherent]⟩
+      simp only [PrefixOK, T.select, hext]
+      exact eraseIdx_prefix bs ext d hd
+  | .node bs2 nm2 es2, hp, hc =>
+    simp only [PrefixOK] at hp
+    obtain ⟨ext, rfl⟩ := prefix_split bs bs2 hp
+    simp only [Coherent] at hc
+    obtain ⟨ps, h1, hlen, hall⟩ := unbindNode_coh d (bs ++ ext) nm2 es2 (by simp; omega) hc
+    have hg : (bs ++ ext).getD d 0 = bs.getD d 0 := by
+      rw [List.getD_eq_getElem?_getD, List.getElem?_append_left hd, ← List.getD_eq_getElem?_getD]
+    refine ⟨ps, by rw [unbindEntry]; exact h1, by rw [hlen, hg], ?_⟩
+    intro x hx
+    obtain ⟨⟨nm, es', rfl⟩, hcx⟩ := hall x hx
+    refine ⟨?_, hcx⟩
+    simp only [PrefixOK]
+    exact eraseIdx_prefix bs ext d hd
+termination_by (sizeOf e, 0)
+end
+
+/-- public form of the above (any accepted spelling of the dim) -/
+theorem unbind_coherent (d : Int) (nd : Nat) (bs : Shape) (names : Names) (es : List (String × TD α))
+    (hnd : maybeCorrectNegDim d bs.length = .ok nd) (hc : CoherentList bs es) :
+    ∃ ps, tdMOp (.unbind d) (.node bs names es) = .ok ps ∧ ps.length = bs.getD nd 0 ∧ ∀ p ∈ ps, Coherent p := by
+  obtain ⟨ps, h1, h2, h3⟩ := unbindNode_coh nd bs names es (maybeCorrectNegDim_lt d bs.length nd hnd) hc
+  exact ⟨ps, by simp only [tdMOp, bind, Except.bind, hnd, h1], h2, fun p hp => (h3 p hp).2⟩
+
+/-- for a batch of rank ≥ 1 and an explicit dim the public method IS the dim-given arithmetic proved above -/
+theorem riPublic_rank_pos (r d : Int) (bs : Shape) (names : Names) (es : List (String × TD α)) (h : bs.length ≠ 0) :
+    riPublic r (some d) bs names es = riNode r d bs names es := by
+  simp [riPublic, h]
+
+/-- `repeat_interleave(r)` without a dim on a coherent tree of batch rank > 1: the tree is flattened (`reshape(-1)`, every entry, nested
+tensordicts recursively), then repeated along dim 0; it succeeds on every entry and the result is coherent with the 1-d batch
+`[numel * r]` — what torch gives for a tensor of the batch shape -/
+theorem riPublic_none_coherent (r : Nat) (bs : Shape) (names : Names) (es : List (String × TD α))
+    (hrank : 1 < bs.length) (hc : CoherentList bs es) :
+    ∃ nm es', riPublic (r : Int) none bs names es = .ok (.node [prod bs * r] nm es') ∧ CoherentList [prod bs * r] es' := by
+  have hne : [prod bs] ≠ bs := by
+    intro h; have := congrArg List.length h; simp at this; omega
+  have hm : opMeta (.reshape [-1]) bs names = .ok (some ([prod bs], none, .reshape [prod bs] bs.length)) := by
+    simp [opMeta, viewMeta, inferSizeImpl_neg1, bind, Except.bind, pure, Except.pure, hne]
+  have g : GoodCall (.reshape [prod bs] bs.length) bs [prod bs] := GoodCall.reshape [prod bs] bs (by simp [prod]) hne
+  obtain ⟨nm1, es1, h1, hc1⟩ := shape_op_coherent_all.1 (.reshape [-1]) bs names es [prod bs] none _ hm g (by intro d sz h; cases h) hc
+  obtain ⟨nm2, es2, h2, hc2⟩ := riNode_coh r 0 [prod bs] nm1 es1 (by simp) hc1
+  have h0 : bs.length ≠ 0 := by omega
+  refine ⟨nm2, es2, ?_, by simpa using hc2⟩
+  simp only [riPublic, h0, if_false, hrank, if_true, h1]
+  simpa using h2
+
 /-- torch.stack on leaves commutes with the batch view: stacking the leaves along a batch dim is stacking their batch views
 (every operand of shape `s`, `dim ≤ n ≤ rank`) -/
 theorem stack_leaf_commutes [Inhabited α] (ts : List (T α)) (s : Shape) (n dim : Nat)
